@@ -3,7 +3,7 @@
 import json, subprocess
 
 HOOK_COMMITS = ["ac08067"]
-FIX_COMMITS = ["ee1d815", "296be57", "098316b", "7098e6b", "bcffdd6", "589a9d1", "787a52b", "01dcc1c", "13be19f", "eb8a8e1", "143bda1", "08fee98", "76d9565", "2fac958", "f13a010"]
+FIX_COMMITS = ["ee1d815", "296be57", "098316b", "7098e6b", "bcffdd6", "589a9d1", "787a52b", "01dcc1c", "13be19f", "eb8a8e1", "143bda1", "08fee98", "76d9565", "2fac958", "f13a010", "e0e2fbb"]
 
 # id -> (technique, level text, level note, design ref)
 CHECKS = {
@@ -52,6 +52,9 @@ CHECKS = {
  "C05": ("bounded-exhaustive enumeration of impl blocks (E1); emitted wrappers executed on the host against recording stubs mapped at the declared absolute addresses (X), signatures read with syn (S)",
          "Every receiver form x every argument-type vector of length 0..3 over five integer/pointer types (rotations at lengths 4..6) x five return types, addresses from an executable alphabet in three spellings: the real emitted wrapper is compiled (conventions normalised to C) and run; a 23-byte stub mmap'ed at the declared address records the call: exactly one call, at that address, receiver = object address, arguments in order (masked to width), return value propagated. Wrapper signature and address literal are checked with syn at both widths; the rejection menu (no address, unresolvable parameter/return type, index on an impl function) must be Err.",
          "SysV x86-64 register assignment for extern \"C\"; execution on the 64-bit host only.", "DESIGN.md §6 C05"),
+ "C04": ("bounded-exhaustive enumeration of vftable descriptions (E1) against a slot-assignment model; table layout asserted by rustc on both widths; dispatch executed on the host against two fake tables of recording stubs (X)",
+         "Every assignment of {no index, index 0..6} to up to 3 functions (4 in thorough) x four declared table sizes: contradictions must be rejected, accepted tables are compiled with offset_of!/size_of asserts at widths 4 and 8 and their placeholder slots counted with syn. Execution: index patterns x receivers x arguments x return types, on the owning type, a derived type inheriting the table and a derived type extending it; two objects carry two different fake tables whose entries are recording stubs; every emitted wrapper is run: one call, into the declared slot of that object's table, receiver = object, arguments in order, result returned.",
+         "First base carrying the vftable pointer at offset 0; SysV extern \"C\" for stubs; execution on the 64-bit host.", "DESIGN.md §6 C04"),
 }
 
 NOT_YET = {
